@@ -12,7 +12,7 @@ for confirm in confirms:
 runs = {}
 for f in sys.argv[4:]:
     for ln in open(f):
-        m = re.match(r'^(C\d+(?:-r[23])?-\d+) (C\d+) rc=(\d+) ?(.*)$', ln.strip())
+        m = re.match(r'^(C\d+(?:-r[234])?-\d+) (C\d+) rc=(\d+) ?(.*)$', ln.strip())
         if m:
             r = runs.setdefault(m.group(1), {}).setdefault(m.group(2), [])
             r.append(dict(exit_code=int(m.group(3)), first_violation=m.group(4).strip()))
@@ -24,7 +24,7 @@ for pending, sid in sorted((p, x) for p in pendings for x in os.listdir(p)):
     os.makedirs(dst, exist_ok=True)
     for fn in ('patch.diff', 'demo.cpp'): shutil.copy(os.path.join(src, fn), os.path.join(dst, fn))
     meta = json.load(open(os.path.join(src, 'meta.json')))
-    meta['demo_build_cmd'] = re.sub(r'/tmp/seed[23]?_C\d+', '<worktree>', meta.get('demo_build_cmd', ''))
+    meta['demo_build_cmd'] = re.sub(r'/tmp/seed[234]?_C\d+', '<worktree>', meta.get('demo_build_cmd', ''))
     meta['id'] = sid
     meta['breaks_property'] = meta.get('property', sid.split('-')[0])
     meta['written_by'] = 'independent sub-agent given only the text of the property and a scratch worktree of /repo (nothing from /verif)'
